@@ -24,6 +24,17 @@ def warmup():
 
 
 def mon(s, obs):
+    if s.case.get("stop_early"):
+        # --stop-early: which tasks get an outcome is C03's business; here only "the run terminates normally and leaves nothing running"
+        v = []
+        if s.exc is not None:
+            kind = type(s.exc).__name__
+            v.append(("term:%s" % kind.lower(), "cond run --stop-early did not terminate normally: %s: %s" % (kind, s.exc)))
+            return v
+        stillrun = [p.key for p in obs.vk.procs.values() if p.state == "run" and not p.unrelated]
+        if stillrun:
+            v.append(("term:returned-with-running", "cond run --stop-early returned while %s were still running" % stillrun))
+        return v
     return rungrid.mon_termination(s, obs)
 
 
@@ -99,6 +110,15 @@ def items(tier):
                     for jobs in (1, 2):
                         out.append({"case": {"g": g, "kinds": kinds, "pars": [k != "combine" and jobs > 1 for k in kinds], "jobs": jobs,
                                              "fails": {}, "cached": list(sub_)}, "bound": 1 if jobs > 1 else 0})
+    # --stop-early with parallel siblings: the first failure is handled while other tasks are running, have exited but are not yet
+    # reaped, or were reaped in the same batch (deviations = early / batched exits)
+    for g in ([[1, 2], [], []], [[1, 2, 3], [], [], []], [[1, 2], [3], [], []]):
+        n = len(g)
+        for failing in range(1, n):
+            for jobs in (2, 3):
+                for fk in (["exit", 3], ["signal", 9]):
+                    out.append({"case": {"g": g, "kinds": ["cmd"] * n, "pars": [True] * n, "jobs": jobs, "fails": {str(failing): fk},
+                                         "stop_early": True}, "bound": 2 if n == 3 or tier == "thorough" else 1})
     out.append({"kind": "kernel-semantics"})
     for case in rungrid.conformance_cases(tier):
         out.append({"case": case, "bound": 0, "conform": True})
